@@ -531,7 +531,7 @@ func (dp *DataProcessor) applyDistinct(results []map[string]any) []map[string]an
 // applyHavingFilter applies HAVING filter
 func (dp *DataProcessor) applyHavingFilter(results []map[string]any) []map[string]any {
 	// Check if HAVING condition contains CASE expression
-	hasCaseExpression := strings.Contains(strings.ToUpper(dp.stream.config.Having), SQLKeywordCase)
+	hasCaseExpression := containsCaseKeyword(dp.stream.config.Having)
 
 	var filteredResults []map[string]any
 
@@ -542,6 +542,35 @@ func (dp *DataProcessor) applyHavingFilter(results []map[string]any) []map[strin
 	}
 
 	return filteredResults
+}
+
+// containsCaseKeyword reports whether text holds the keyword CASE as a word of its own outside
+// quoted literals and backticked identifiers: a literal such as 'case%' or a column named
+// showcase does not make the predicate a CASE expression.
+func containsCaseKeyword(text string) bool {
+	isWord := func(c byte) bool {
+		return c == '_' || c >= '0' && c <= '9' || c >= 'a' && c <= 'z' || c >= 'A' && c <= 'Z'
+	}
+	var quote byte
+	for i := 0; i < len(text); i++ {
+		c := text[i]
+		if quote != 0 {
+			if c == quote {
+				quote = 0
+			}
+			continue
+		}
+		if c == '\'' || c == '"' || c == '`' {
+			quote = c
+			continue
+		}
+		if i+len(SQLKeywordCase) <= len(text) && strings.EqualFold(text[i:i+len(SQLKeywordCase)], SQLKeywordCase) &&
+			(i == 0 || !isWord(text[i-1])) &&
+			(i+len(SQLKeywordCase) == len(text) || !isWord(text[i+len(SQLKeywordCase)])) {
+			return true
+		}
+	}
+	return false
 }
 
 // applyHavingWithCaseExpression applies HAVING filter using CASE expression
